@@ -7,7 +7,7 @@ OPTION_KEYS = {"no_explicit_cast", "no_data_loss", "collect_errors", "max_errors
                "invalid_values", "allow_subclasses", "addition", "ignore_required", "data_first_search",
                "case_insensitive", "ignore_constraints", "unresolved_types", "max_depth", "cast_keyword_str",
                "no_default", "defer_default", "ignore_alias_conflicts", "max_params", "min_params", "mode",
-               "immutable", "override", "ignore_delete_nonexistent"}
+               "immutable", "override", "ignore_delete_nonexistent", "alias_generator", "alias_from_generator"}
 
 
 def make_options(o):
@@ -20,6 +20,13 @@ def make_options(o):
     kw = dict(o)
     if kw.get("addition") == "int":
         kw["addition"] = int
+    if "alias_generator" in kw or "alias_from_generator" in kw:
+        from .dspec import ALIAS_GENS
+        if "alias_generator" in kw:
+            kw["alias_generator"] = ALIAS_GENS[kw["alias_generator"]]
+        if "alias_from_generator" in kw:
+            g = kw["alias_from_generator"]
+            kw["alias_from_generator"] = [ALIAS_GENS[x] for x in g] if isinstance(g, list) else ALIAS_GENS[g]
     return utype.Options(**kw)
 
 
